@@ -227,6 +227,9 @@ class CBuilder:
         return cmd, so, pats
 
     def load(self, so, prog, pats):
+        return self._load(so, prog, pats)
+
+    def _load(self, so, prog, pats):
         lib = ctypes.CDLL(so)
         n = sum(2 + len(p[1]) for p in pats)
         table = list((ctypes.c_long * (n + 1)).in_dll(lib, "bpv_probe"))
@@ -289,3 +292,34 @@ class Worker:
 
 def bits_of_bytes(b):
     return [(x >> k) & 1 for x in b for k in range(8)]
+
+
+class BEBuilder(CBuilder):
+    """Builds generated C + lib/c/bitproto.c with big-endian memory semantics (bpverif/beir.py: clang IR for a
+    big-endian LP64 target, every integer load/store byte-swapped, retargeted to this host).  The offsetof /
+    sizeof probe is compiled natively.  Standard mode and optimization mode alike; no -D is needed: the runtime
+    detects the byte order from the compiler's predefined macros."""
+
+    def __init__(self, scratch):
+        self.scratch = scratch
+        self.cflags = ["-O0"]
+        self.defines = []
+        self.cc = "clang"
+        self.dir = scratch.sub()
+        self.rt_obj = None
+        import shutil
+        if shutil.which("clang") is None:
+            raise common.MachineryError("clang is needed for the big-endian build")
+
+    def link_cmd(self, d, cs, prog, single_tu=False):
+        pats = leaf_patterns(prog["rtype"])
+        probe = os.path.join(d, "bpv_probe.c")
+        with open(probe, "w") as f:
+            f.write(probe_source(prog["main"] + "_bp.h", prog.get("_c_top", prog["top"]), pats,
+                                 prog.get("_c_size_macro")))
+        so = os.path.join(d, "libcase_be.so")
+        cmd = [common.PY, os.path.join(common.VERIF, "bpverif", "beir.py"), "--out", so,
+               "--inc", common.REPO_LIBC, "--inc", d, "--native", probe] + list(cs) + \
+              [os.path.join(common.REPO_LIBC, "bitproto.c")]
+        return cmd, so, pats
+
